@@ -69,6 +69,9 @@ def save_footprints_to_netcdf(results, config, filepath):
         dims = ["time", "tower", "y", "x"]
 
     ustar_data = np.zeros((n_time,))
+    z0_data = np.zeros((n_time,))
+    has_ustar = first_result["params"].get("ustar") is not None
+    has_z0 = first_result["params"].get("z0") is not None
     mol_data = np.zeros((n_time,))
     wind_speed_data = np.zeros((n_time,))
     wind_dir_data = np.zeros((n_time,))
@@ -78,7 +81,10 @@ def save_footprints_to_netcdf(results, config, filepath):
             flx_data[t, ti] = r["flx"]
             conc_data[t, ti] = r["conc"]
             if ti == 0:  # met params are the same for all towers
-                ustar_data[t] = r["params"]["ustar"]
+                if has_ustar:
+                    ustar_data[t] = r["params"]["ustar"]
+                if has_z0:
+                    z0_data[t] = r["params"]["z0"]
                 mol_data[t] = r["params"]["mol"]
                 wind_speed_data[t] = r["params"]["wind_speed"]
                 wind_dir_data[t] = r["params"]["wind_dir"]
@@ -161,6 +167,16 @@ def save_footprints_to_netcdf(results, config, filepath):
             "domain_ymax": config.domain.ymax,
         },
     )
+
+    # forcing given by roughness length: export z0, and no friction velocity unless given
+    if not has_ustar:
+        ds = ds.drop_vars("ustar")
+    if has_z0:
+        ds["z0"] = (
+            ["time"],
+            z0_data,
+            {"long_name": "roughness length", "units": "m"},
+        )
 
     encoding = {
         "footprint": {"zlib": True, "complevel": 4},
